@@ -10,6 +10,7 @@ from vlib import gen, observe, pdbio, common
 from vlib.pdbio import Atom
 
 PROPERTY = "C06"
+REDUCE_KEYS = [["pdb", "relabelled"]]
 LEVEL = "exploration"
 RULE = ("corpus-derived structures (incl. 3SGB's insertion-coded residues, generated insertion codes, blank/digit/"
         "lower-case chain ids, ligands, ions) x relabellings: injective chain renaming; per-chain constant shifts (to "
